@@ -158,6 +158,17 @@ Proof.
   split; [reflexivity|]. eexists. split; [vm_compute; reflexivity|]. split; reflexivity.
 Qed.
 
+(* KNOWN FINDING F16 (not repaired): Builder::build accepts UDP with the Paris or Dublin strategy in UNPRIVILEGED mode
+   (the command-line layer refuses it, validate_strategy).  The non-raw dispatch hands only the pattern payload to a
+   datagram socket bound to the probe's source port: what reaches the wire does not depend on the sequence, and with
+   Paris / Dublin the ports do not either, so the identity of the probe cannot survive the wire.  (The repair - the
+   builder refusing these cells - makes the existing test builder::tests::test_builder_full fail, which builds exactly
+   Unprivileged + Udp + Paris, so it cannot be a fix: commit that leaves the suite unedited.)  In the model: *)
+Theorem c02_unprivileged_udp_carries_no_sequence_refuted : forall c size tos initseq tid sp dp ttl flags seq1 seq2 tid2,
+  rc_proto c = Udp -> rc_privileged c = false ->
+  probe_sendto c size tos initseq seq1 tid sp dp ttl flags = probe_sendto c size tos initseq seq2 tid2 sp dp ttl flags.
+Proof. intros c size tos initseq tid sp dp ttl flags seq1 seq2 tid2 Hp Hu. unfold probe_sendto. rewrite Hp, Hu. reflexivity. Qed.
+
 (* ---------------------------------------------------------------- supporting facts *)
 (* every structurally well-formed RFC 4884 / RFC 4950 extension structure parses (so [ext_conforming] is not vacuous) *)
 Theorem c02_extension_structures_parse : forall r1 r2 ck objs, 0 <= r1 < 16 -> Forall obj_wf objs ->
